@@ -1,8 +1,11 @@
 package main
 
 import (
+	"bytes"
 	"context"
 	"fmt"
+	"github.com/bartossh/Computantis/src/spice"
+	"github.com/bartossh/Computantis/src/transaction"
 	"sort"
 
 	"github.com/bartossh/Computantis/src/accountant"
@@ -47,8 +50,15 @@ func c14Body(ops []string) func(x *sched.X) {
 		full[0].ResetServices(ctx)
 		vsched.Settle()
 		R, A := world.Cast("R"), world.Cast("A")
-		for i := 0; i < 4; i++ {
-			if _, err := w.Propose(ctx, 0, w.Tx(fmt.Sprintf("h%d", i), R, A, 1, 0)); err != nil {
+		// the peer's history: whole units, a sub-unit amount, a paid contract with a sub-unit amount
+		hist := []transaction.Transaction{
+			w.Tx("h0", R, A, 1, 0),
+			w.Tx("h1", R, A, 0, 500_000_000_000_000_000),
+			world.MakeTx(R, A.Addr, "h2", []byte("paid contract"), spice.Melange{SupplementaryCurrency: 250_000_000_000_000_000}, 9402),
+			w.Tx("h3", R, A, 1, 0),
+		}
+		for _, t := range hist {
+			if _, err := w.Propose(ctx, 0, t); err != nil {
 				panic(err)
 			}
 			vsched.Settle()
@@ -68,10 +78,15 @@ func c14Body(ops []string) func(x *sched.X) {
 		x.Vars["peer"] = full[0].Node
 		x.Vars["joiner"] = joiner
 		before := map[[32]byte]bool{}
+		content := map[[32]byte]accountant.Vertex{}
 		for _, v := range full[0].Book.VerifSnapshot().Vertices {
 			before[v.Hash] = true
+			content[v.Hash] = v
 		}
 		x.Vars["before"] = before
+		x.Vars["content"] = content
+		fired := 0
+		x.Vars["fired"] = &fired
 		st := &c14Stream{ch: vsched.MakeChan[*accountant.Vertex](1000)}
 		base := len(vsched.Tickers())
 		vsched.Quiet(false)
@@ -83,8 +98,8 @@ func c14Body(ops []string) func(x *sched.X) {
 			for round := 0; round < 2; round++ {
 				ts := vsched.Tickers()
 				for _, tk := range ts[base:] {
-					if tk.OneShot {
-						tk.Fire()
+					if tk.OneShot && tk.Fire() {
+						fired++
 					}
 				}
 				vsched.Op("timers-pause", "", nil)
@@ -122,10 +137,16 @@ func c14Oracle(name string) func(x *sched.X, r *vsched.Result) []common.Violatio
 			return out
 		}
 		joiner := x.Vars["joiner"].(*world.Node)
+		served, _ := x.Vars["served"].(error)
 		if !joiner.Book.DagLoaded() {
+			if served == nil && *x.Vars["fired"].(*int) == 0 {
+				// nothing interfered with the stream: the peer's own valid ledger must load
+				out = append(out, common.Violation{Property: "C14", Predicate: "C14.same-ledger", Key: "C14.not-loaded/served-stream",
+					What: name + ": the peer's handler served its valid ledger completely, yet the joining node is not marked as loaded"})
+			}
 			return out // a refused load leaves the node out of service
 		}
-		if err, _ := x.Vars["served"].(error); err != nil {
+		if served != nil {
 			return out // the peer reported the stream as failed: the client side refuses it
 		}
 		// the node is marked as loaded: it must hold every vertex the peer held when the stream began (vertices the
@@ -148,6 +169,23 @@ func c14Oracle(name string) func(x *sched.X, r *vsched.Result) []common.Violatio
 		for h := range got {
 			if !peerNow[h] {
 				extra++
+			}
+		}
+		// ... and holds them with the content the peer holds them with
+		content := x.Vars["content"].(map[[32]byte]accountant.Vertex)
+		for _, v := range joiner.Book.VerifSnapshot().Vertices {
+			p, ok := content[v.Hash]
+			if !ok {
+				continue
+			}
+			a, b := p.Transaction, v.Transaction
+			if a.Spice != b.Spice || !bytes.Equal(a.Data, b.Data) || a.Subject != b.Subject || a.IssuerAddress != b.IssuerAddress || a.ReceiverAddress != b.ReceiverAddress ||
+				a.Hash != b.Hash || !bytes.Equal(a.IssuerSignature, b.IssuerSignature) || !bytes.Equal(a.ReceiverSignature, b.ReceiverSignature) || !a.CreatedAt.Equal(b.CreatedAt) ||
+				p.LeftParentHash != v.LeftParentHash || p.RightParentHash != v.RightParentHash || p.Weight != v.Weight || !bytes.Equal(p.Signature, v.Signature) ||
+				p.SignerPublicAddress != v.SignerPublicAddress || !p.CreatedAt.Equal(v.CreatedAt) {
+				out = append(out, common.Violation{Property: "C14", Predicate: "C14.same-graph", Key: "C14.loaded-vertex-differs/served-stream",
+					What: fmt.Sprintf("%s: a vertex of the loaded node differs from the peer's vertex of the same hash (amount %v vs %v, data %d vs %d bytes)", name, b.Spice, a.Spice, len(b.Data), len(a.Data))})
+				break
 			}
 		}
 		if missing > 0 || extra > 0 {
